@@ -1,5 +1,6 @@
 //! vharness — drives the real versatiles code for the TLA+-based checks in /verif.
 //! It never judges: it executes cases and records observations as ndjson; TLC decides.
+mod c15;
 mod c20;
 mod util;
 
@@ -14,6 +15,8 @@ fn main() {
 	let seed = util::seed();
 	let thorough = util::tier_is_thorough();
 	let summary = match (args[1].as_str(), args[2].as_str()) {
+		("replay", "C15") => c15::replay(&args[3], &args[4]),
+		("record", "C15") => c15::record(&args[3], seed, thorough),
 		("replay", "C20") => c20::replay(&args[3], &args[4]),
 		("record", "C20") => c20::record(&args[3], seed, thorough),
 		_ => {
